@@ -1217,6 +1217,25 @@ pub fn iter_template(g: &mut Gen, out: &mut Vec<Stmt>) {
                 let gd = g.guard_begin_pub();
                 let s = g.guard_end_pub(gd, Stmt::print(Expr::invoke(v(&it), "next", vec![])));
                 out.push(s);
+            } else if g.rd.flag() {
+                // the same through an adapter: run to the end, the vector grows, the adapter is asked
+                // again (the adapters are as index-based as the iterator they wrap)
+                g.label_pub("exhausted_adapter_after_growth");
+                let it = g.fresh_pub("it");
+                let f = g.lambda_pub(1);
+                let adapter = if g.rd.flag() { "map" } else { "filter" };
+                out.push(Stmt::var(&it, Some(Expr::invoke(Expr::invoke(v(&w), "iter", vec![]), adapter, vec![f]))));
+                let gd = g.guard_begin_pub();
+                let s = g.guard_end_pub(gd, Stmt::print(Expr::invoke(v(&it), "collect", vec![])));
+                out.push(s);
+                out.push(Stmt::expr(Expr::invoke(v(&w), "push", vec![n(4.0)])));
+                out.push(Stmt::expr(Expr::invoke(v(&w), "push", vec![n(5.0)])));
+                let gd = g.guard_begin_pub();
+                let s = g.guard_end_pub(gd, Stmt::print(Expr::invoke(v(&it), "collect", vec![])));
+                out.push(s);
+                let gd = g.guard_begin_pub();
+                let s = g.guard_end_pub(gd, Stmt::print(Expr::callv("type", vec![Expr::invoke(v(&it), "next", vec![])])));
+                out.push(s);
             }
         }
         _ => {
